@@ -153,3 +153,16 @@ package keeper
 //@ ensures [unregistered_operator_or_unknown_checkpoint_rejected] !has(bridge.OperatorToEVMAddressMap, operatorAddress) || !old(has(bridge.BridgeValsetSignaturesMap, timestamp)) ==> err != nil && nothing_written()
 //@ loop 0 "for i, val := range previousValset.BridgeValidatorSet"
 //@ loop 0 invariant [slots_changed_so_far_belong_to_the_sender] len(valsetSigs.Signatures) == old(len(sigs(timestamp))) && forall j in [0, len(valsetSigs.Signatures)) :: bytes(valsetSigs.Signatures[j]) != old(bytes(sigs(timestamp)[j])) ==> j < i && bytes(previousValset.BridgeValidatorSet[j].EthereumAddress) == bytes(evm(operatorAddress))
+
+//@ define atts(s) = bridge.SnapshotToAttestationsMap[bytes(s)].Attestations
+
+//@ func (k Keeper).SetOracleAttestation(ctx, operatorAddress, snapshot, sig) (err)
+//@ requires [saved_set_members_present] has(bridge.BridgeValset) ==> forall j in [0, len(bridge.BridgeValset.BridgeValidatorSet)) :: bridge.BridgeValset.BridgeValidatorSet[j] != nil
+//@ modifies bridge.SnapshotToAttestationsMap, A_*
+//@ ensures [only_this_snapshots_slots_are_written] forall s bytes :: s != bytes(snapshot) ==> (has(bridge.SnapshotToAttestationsMap, s) <==> old(has(bridge.SnapshotToAttestationsMap, s))) && bridge.SnapshotToAttestationsMap[s] == old(bridge.SnapshotToAttestationsMap[s])
+//@ ensures [slot_count_unchanged] len(atts(snapshot)) == old(len(atts(snapshot)))
+//@ ensures [only_the_senders_slots_change] err == nil ==> forall j in [0, len(atts(snapshot))) :: bytes(atts(snapshot)[j]) != old(bytes(atts(snapshot)[j])) ==> j < len(bridge.BridgeValset.BridgeValidatorSet) && bytes(bridge.BridgeValset.BridgeValidatorSet[j].EthereumAddress) == bytes(evm(operatorAddress))
+//@ ensures [unregistered_operator_rejected] !has(bridge.OperatorToEVMAddressMap, operatorAddress) ==> err != nil && nothing_written()
+//@ loop 0 "for i, val := range lastSavedBridgeValidators.BridgeValidatorSet"
+//@ loop 0 invariant [slots_changed_so_far_belong_to_the_sender] len(atts(snapshot)) == old(len(atts(snapshot))) && forall j in [0, len(atts(snapshot))) :: bytes(atts(snapshot)[j]) != old(bytes(atts(snapshot)[j])) ==> j < i && bytes(lastSavedBridgeValidators.BridgeValidatorSet[j].EthereumAddress) == bytes(evm(operatorAddress))
+//@ loop 0 invariant [other_snapshots_untouched] forall s bytes :: s != bytes(snapshot) ==> (has(bridge.SnapshotToAttestationsMap, s) <==> old(has(bridge.SnapshotToAttestationsMap, s))) && bridge.SnapshotToAttestationsMap[s] == old(bridge.SnapshotToAttestationsMap[s])
